@@ -59,6 +59,18 @@ func (fx *FnCtx) oneGlobal(g *ssa.Global) {
 					if n.Name != g.Name() || i >= len(vs.Values) {
 						continue
 					}
+					if ce, ok := vs.Values[i].(*ast.CallExpr); ok {
+						// var errX = errors.New(...) / fmt.Errorf(...): a non-nil error that is never reassigned
+						if se, ok := ce.Fun.(*ast.SelectorExpr); ok {
+							if id, ok := se.X.(*ast.Ident); ok && ((id.Name == "errors" && se.Sel.Name == "New") || (id.Name == "fmt" && se.Sel.Name == "Errorf")) {
+								gname := "G$" + g.Pkg.Pkg.Name() + "." + g.Name()
+								gv := fx.entry.getHeap(P, gname, "Iface")
+								fx.assumeDef(not(eq(app("Int", "i_typ", gv), Term{"0", "Int"})))
+								fx.notes[fmt.Sprintf("%s.%s is initialised by %s.%s and never reassigned: non-nil", g.Pkg.Pkg.Name(), g.Name(), id.Name, se.Sel.Name)] = true
+							}
+						}
+						continue
+					}
 					cl, ok := vs.Values[i].(*ast.CompositeLit)
 					if !ok {
 						continue
